@@ -154,6 +154,9 @@ def addCall (st : FSt) (c : Call) : FSt :=
 
 def posOf (p : P) : Pos := { startLine := p.startLine, startCol := p.startCol, stopLine := p.stopLine, stopCol := p.stopCol }
 
+/-- the width of an identifier as the code computes it (regenerated: `utf8.RuneCountInString(x)` or `len(x)`) -/
+def width (how : String) (x : String) : Nat := if how == "runes" then x.length else x.utf8ByteSize
+
 /-- `BuildPosition(ctx, name)`: stop column = column of the last token + byte length of `name` -/
 def buildPosition (p : P) (name : String) : Pos :=
   { startLine := p.startLine, startCol := p.startCol, stopLine := p.stopLine, stopCol := p.stopCol + name.utf8ByteSize }
@@ -207,7 +210,7 @@ def onCall (st : FSt) (targetText : String) (targetCallIdent : Option String) (c
   let tt2 := if isChainCall r.1 then parseTargetType st (match r.1.splitOn "." with | x :: _ => x | [] => r.1) else r.1
   let c : Call := { pkg := r.2, type := callType, node := tt2, fn := callee,
                     params := args.map fun a => { typeType := "", typeValue := a },
-                    pos := { startLine := startLine, startCol := startCol, stopLine := stopLine, stopCol := startCol + callee.utf8ByteSize } }
+                    pos := { startLine := startLine, startCol := startCol, stopLine := stopLine, stopCol := startCol + width Gen.JavaFull.callStopWidth callee } }
   addCall st c
 
 /-- `EnterClassDeclaration` up to the `extends` clause -/
@@ -267,7 +270,7 @@ def onEv (st : FSt) : Ev → FSt
   | .enterMethod name ret annos params emptyParams startLine nameCol stopLine =>
     let st1 := { st with curMethod := { st.curMethod with annos := st.curMethod.annos ++ annos } }
     let m : Fn := { name := name, ret := ret, annos := st1.curMethod.annos, override := st1.isOverride,
-                    pos := { startLine := startLine, startCol := nameCol, stopLine := stopLine, stopCol := nameCol + name.utf8ByteSize } }
+                    pos := { startLine := startLine, startCol := nameCol, stopLine := stopLine, stopCol := nameCol + width Gen.JavaFull.methodStopWidth name } }
     let st1 := if Gen.JavaFull.methodEntryResetsScope then resetMethodScope st1 else st1
     let r := setParams st1 m params emptyParams
     if r.2 then r.1 else updateMethod r.1 r.1.curMethod
@@ -292,7 +295,7 @@ def onEv (st : FSt) : Ev → FSt
     -- `pos` = the token of the method's name
     addCall st { pkg := removeTarget full, type := "lambda", node := tt, fn := methodName,
                  pos := { startLine := pos.startLine, startCol := pos.startCol, stopLine := pos.startLine,
-                          stopCol := pos.startCol + methodName.utf8ByteSize } }
+                          stopCol := pos.startCol + width Gen.JavaFull.mrefStopWidth methodName } }
   | .enterBlock => if Gen.JavaFull.blockSavesLocals then saveLocalVars st else st
   | .exitBlock => if Gen.JavaFull.blockRestoresLocals then restoreLocalVars st else st
   | .enterStmtScope => if Gen.JavaFull.forSavesLocals then saveLocalVars st else st
